@@ -88,6 +88,12 @@ def build_harness(release=False):
             open(dst_p, "w").write(src)
     except OSError:
         pass
+    # path dependencies follow REPO (default /repo; VERIF_REPO is used only to try the checks on a scratch copy)
+    ct = os.path.join(HARNESS, "Cargo.toml")
+    cur = open(ct).read()
+    want = re.sub(r'path = "[^"]*/(nom|parser|info|dom|xpath)"', lambda m: 'path = "%s/%s"' % (REPO, m.group(1)), cur)
+    if want != cur:
+        open(ct, "w").write(want)
     cmd = ["cargo", "build", "--offline", "-q"] + (["--release"] if release else [])
     rc, out = sh(cmd, cwd=HARNESS, timeout=1800)
     if rc != 0:
@@ -421,6 +427,24 @@ TRUSTED_BASE = [
 # ---------------------------------------------------------------------------------------------
 # regeneration of the generated Lean files from /repo's current tree (the translator half of the tie)
 
+WRAPPER_USES = []
+XML_CONSTS = {}
+
+
+def wrapper_diffs():
+    """exhaustive check (every scalar value) that each xmlchar `*_except*` parser constructor met by the translator means
+    `class(c) && c not in except` — the semantics the translator assumes for it.  Returns [(name, except, [code points])]"""
+    if not WRAPPER_USES:
+        return []
+    out = run_lines(build_harness(), [req("wrapper", n, ex) for n, ex in WRAPPER_USES], timeout=300)
+    res = []
+    for (n, ex), o in zip(WRAPPER_USES, out):
+        if o != "ok":
+            cps = [int(x, 16) for x in o.split(":", 1)[1].split(",")] if o.startswith("diff:") else []
+            res.append((n, ex, cps, o))
+    return res
+
+
 def regenerate():
     """extract tables and translate grammars; returns list of problems (strings)"""
     import extract
@@ -428,8 +452,11 @@ def regenerate():
     problems = []
     tabs = extract.char_tables()
     extract.write_char_tables(tabs)
+    global WRAPPER_USES, XML_CONSTS
     try:
-        translate.translate_all()
+        gx, gp = translate.translate_all()
+        WRAPPER_USES = sorted(set(gx.wrapper_uses + gp.wrapper_uses))
+        XML_CONSTS.update(gx.consts)
     except translate.TranslateError as e:
         problems.append("translate: %s" % e)
     except Exception as e:  # malformed source, unexpected shape
